@@ -66,14 +66,15 @@ def storage():
     return {
         "name": "storage",
         "events": ["E0", {"name": "S1", "size_class": 1}, {"name": "S2", "size_class": 2}, {"name": "S3", "size_class": 3},
-                   {"name": "S4", "size_class": 4}, {"name": "S5", "size_class": 5}, {"name": "S6", "size_class": 6}, "E7"],
+                   {"name": "S4", "size_class": 4}, {"name": "S5", "size_class": 5}, {"name": "S6", "size_class": 6}, "E7",
+                   {"name": "S8", "size_class": 7}],
         "machines": [
             {"name": "Top", "regions": [["A", "B", "S"]], "kinds": {"S": "sub:Sub"},
              "rows": ["A + E0 / a0 -> B", "B + E0 / a1 -> S", "S + E0 [g0] / a2 -> A", "B + S1 / a3", "B + S2 / a4", "B + S3 / a5",
-                      "B + S4 / a6", "B + S5 / a7", "B + S6 / a8", "A + E7 / a9", "B + E7 / a10 -> A", "S + E7 / a17 -> B"],
-             "state": {"A": {"deferred": ["S1", "S2", "S3", "S4", "S5", "S6"]}}},
+                      "B + S4 / a6", "B + S5 / a7", "B + S6 / a8", "A + E7 / a9", "B + E7 / a10 -> A", "S + E7 / a17 -> B", "B + S8 / a18"],
+             "state": {"A": {"deferred": ["S1", "S2", "S3", "S4", "S5", "S6", "S8"]}}},
             {"name": "Sub", "regions": [["P", "Q"]],
-             "rows": ["P + S2 / a11 -> Q", "Q + S3 / a12 -> P", "P + S4 / a13", "Q + S5 / a14", "P + S6 / a15", "Q + S1 / a16"]},
+             "rows": ["P + S2 / a11 -> Q", "Q + S3 / a12 -> P", "P + S4 / a13", "Q + S5 / a14", "P + S6 / a15", "Q + S1 / a16", "P + S8 / a19"]},
         ],
     }
 
@@ -201,7 +202,9 @@ def fork_entry():
              "kinds": {"K0": "explicit", "K1": "explicit", "K2": "explicit", "EP": "entry_pt"},
              "state": {"K0": {"flags": ["F0"]}, "K1": {"flags": ["F0", "F1"]}, "Q0": {"flags": ["F1"]}, "P2": {"flags": ["F2"]}},
              "rows": ["P0 + E0 [g3] / a6 -> K0", "K0 + E0 / a7 -> Q0", "Q0 + E1 -> P0", "EP + E4 [g4] / a8 -> Q0",
-                      "P1 + E1 [g5] / a9 -> K1", "K1 + E2 / a10 -> P1", "P2 + E2 [g6] / a11 -> K2", "K2 + E3 -> P2"]},
+                      "P1 + E1 [g5] / a9 -> K1", "K1 + E2 / a10 -> P1", "P2 + E2 [g6] / a11 -> K2", "K2 + E3 -> P2",
+                     # completion transitions out of an explicit-entry state and out of an initial state that a partial fork enters by default
+                     "K1 [g10] / a13 -> P1", "P2 [g11] / a14 -> K2"]},
         ],
     }
 
@@ -403,14 +406,15 @@ def storage():
     return {
         "name": "storage",
         "events": ["E0", {"name": "S1", "size_class": 1}, {"name": "S2", "size_class": 2}, {"name": "S3", "size_class": 3},
-                   {"name": "S4", "size_class": 4}, {"name": "S5", "size_class": 5}, {"name": "S6", "size_class": 6}, "E7"],
+                   {"name": "S4", "size_class": 4}, {"name": "S5", "size_class": 5}, {"name": "S6", "size_class": 6}, "E7",
+                   {"name": "S8", "size_class": 7}],
         "machines": [
             {"name": "Top", "regions": [["A", "B", "S"]], "kinds": {"S": "sub:Sub"},
              "rows": ["A + E0 / a0 -> B", "B + E0 / a1 -> S", "S + E0 [g0] / a2 -> A", "B + S1 / a3", "B + S2 / a4", "B + S3 / a5",
-                      "B + S4 / a6", "B + S5 / a7", "B + S6 / a8", "A + E7 / a9", "B + E7 / a10 -> A", "S + E7 / a17 -> B"],
-             "state": {"A": {"deferred": ["S1", "S2", "S3", "S4", "S5", "S6"]}}},
+                      "B + S4 / a6", "B + S5 / a7", "B + S6 / a8", "A + E7 / a9", "B + E7 / a10 -> A", "S + E7 / a17 -> B", "B + S8 / a18"],
+             "state": {"A": {"deferred": ["S1", "S2", "S3", "S4", "S5", "S6", "S8"]}}},
             {"name": "Sub", "regions": [["P", "Q"]],
-             "rows": ["P + S2 / a11 -> Q", "Q + S3 / a12 -> P", "P + S4 / a13", "Q + S5 / a14", "P + S6 / a15", "Q + S1 / a16"]},
+             "rows": ["P + S2 / a11 -> Q", "Q + S3 / a12 -> P", "P + S4 / a13", "Q + S5 / a14", "P + S6 / a15", "Q + S1 / a16", "P + S8 / a19"]},
         ],
     }
 
@@ -755,3 +759,22 @@ def entry_pt_noqueue():
 
 
 ALL["entry_pt_noqueue"] = entry_pt_noqueue
+
+
+def defer_sub():
+    """a state inside a sub-machine defers an event: the occurrence waits in the sub-machine's own deferred queue; the
+    sub-machine can be left by an outer transition whose exit cascade may throw (third seeded defect C12)"""
+    return {
+        "name": "defer_sub",
+        "events": ["E0", "E1", "E2", "E3"],
+        "machines": [
+            {"name": "Top", "regions": [["A", "S"]], "kinds": {"S": "sub:Sub"},
+             "rows": ["A + E0 / a0 -> S", "S + E2 [g0] / a1 -> A", "A + E3 / a5", "A + E1 / a6"]},
+            {"name": "Sub", "regions": [["P", "Q"]],
+             "rows": ["P + E3 / a2 -> Q", "Q + E1 / a3 -> P", "Q + E3 [g1] / a4 -> P"],
+             "state": {"P": {"deferred": ["E1"]}}},
+        ],
+    }
+
+
+ALL["defer_sub"] = defer_sub
